@@ -19,7 +19,7 @@ MANIFEST = {
              'is within the helper\'s tolerance and is reported with the cofactor. Reals, not floats.'),
 }
 EXPLANATION = 'Whole-step SVN terms of the TrainState bookkeeping fields compared with the kinematic reference formulas.'
-RULES = ['C12-1.time', 'C12-2.offset', 'C12-3.rear', 'C12-4.dist', 'C12-5.link']
+RULES = ['C12-1.time', 'C12-2.offset', 'C12-3.rear', 'C12-4.dist', 'C12-5.link', 'C12-6.init']
 ASSUMPTIONS = ['dt > 0', 'identities over the reals']
 
 SIMS = {
@@ -89,6 +89,7 @@ def run(ctx):
                                                                                           show(lp_off, an.names)[:200] if lp_off else None), ctx.where(b))
     ctx.floor('train step roots analysed', n, 2)
     link_search(ctx)
+    initial_state(ctx)
 
 
 def _deref_chain(t):
@@ -157,3 +158,33 @@ def link_search(ctx):
                       'search predicate is %s' % rs[:200], ctx.where(c))
     if not found:
         ctx.unproved('C12-5.link', 'set_link_and_offset|predicate', 'position predicate closure not found', ctx.where(b))
+
+
+def initial_state(ctx):
+    """C12-6.init: the record saved before the first step obeys the same relations: the state a train starts from has
+    rear = front - length, the front at least one train length down the route, the time / speed of the requested initial
+    state, no distance travelled yet and step counter 1."""
+    R = 'C12-6.init'
+    b = ctx.prog.by_id.get('TrainState::new')
+    if b is None:
+        ctx.unproved(R, 'TrainState::new', 'anchor not found'); return
+    an = analysis_or_fail(ctx, R, b)
+    if an is None:
+        return
+    r = an.ret()
+    f = dict(r[2]) if r[0] == 'agg' else {}
+    w = ctx.where(b)
+    if not f:
+        ctx.unproved(R, 'TrainState::new', 'the constructor does not return a struct literal: %s' % show(r, an.names)[:200], w); return
+    try:
+        L = T(an.arg('length'))
+    except KeyError:
+        ctx.unproved(R, 'TrainState::new', 'no parameter named length', w); return
+    prove(ctx, R, 'TrainState::new|offset_back', an, 'eq', T(f.get('offset_back')), T(f.get('offset')) - L, assume=[], note='rear = front - length in the initial state')
+    prove(ctx, R, 'TrainState::new|length', an, 'eq', T(f.get('length')), L, assume=[], note='the state carries the length it was built with')
+    prove(ctx, R, 'TrainState::new|offset >= length', an, 'ge0', T(f.get('offset')) - L, assume=[], note='the whole train is on the route: front >= length')
+    prove(ctx, R, 'TrainState::new|total_dist', an, 'eq', T(f.get('total_dist')), 0, assume=[], note='no distance travelled yet')
+    ctx.check(f.get('i') == ONE, R, 'TrainState::new|i', 'step counter starts at 1', 'i starts at %s' % show(f.get('i'), an.names)[:40], w)
+    s_t, s_v = show(f.get('time'), an.names), show(f.get('speed'), an.names)
+    ctx.check('.time' in s_t and '.speed' in s_v and 'init_train_state' in s_t + s_v or ('time' in s_t and 'speed' in s_v and 'arg5' in s_t + s_v), R, 'TrainState::new|time, speed',
+              'time and speed are those of the requested initial state', 'time = %s, speed = %s' % (s_t[:80], s_v[:80]), w)
